@@ -30,6 +30,9 @@ def run(ctx):
     for it in range(N):
         k = rng.randint(1, 4)
         n = rng.randint(k + 1, 15)
+        if it % 50 == 17:
+            n = rng.choice([17, 33, 65, rng.randint(18, 70)])      # scale-up slice: masks longer than 8/16/32/64 series
+            ctx.count("large_collections")
         nd = rng.choice([0, 0, 0, 2])
         equal = rng.random() < 0.6
         n0 = rng.randint(2, 6)
